@@ -284,7 +284,11 @@ func newWriterBuffer(min int) *bytes.Buffer {
 		return bytes.NewBuffer(make([]byte, min))
 	}
 	if v := writerBufferPool.Get(); v != nil {
-		return v.(*bytes.Buffer)
+		// MessageBufferLength may have been raised since this buffer was
+		// pooled: only a buffer that can hold the message is reused.
+		if b := v.(*bytes.Buffer); cap(b.Bytes()) >= min {
+			return b
+		}
 	}
 	return bytes.NewBuffer(make([]byte, MessageBufferLength))
 }
